@@ -330,10 +330,18 @@ def aten_getitem(interp, t: ATen, idx):
     raise Unsupported(f"tensor subscript {idx!r}")
 
 
+def as_int(x):
+    if isinstance(x, ATen):
+        if x.intval is not None:
+            return x.intval
+        raise Unsupported("non-integer tensor used as an index bound")
+    return lift(x)
+
+
 def _slice_len(n, s: V.Slice):
     n = lift(n)
-    lo = lift(0 if s.lo is None else s.lo)
-    hi = n if s.hi is None else lift(s.hi)
+    lo = as_int(0 if s.lo is None else s.lo)
+    hi = n if s.hi is None else as_int(s.hi)
     if isinstance(s.lo, int) and s.lo < 0:
         lo = n + s.lo
     if isinstance(s.hi, int) and s.hi < 0:
@@ -702,6 +710,33 @@ def t_one_hot(interp, idx, num_classes=-1):
 @prim("torch.nn.functional.softmax")
 def t_softmax(interp, t, dim=None):
     return mk("softmax", [t, dim], t.shape_l, t.dtype)
+
+
+@prim("torch.nn.functional.normalize")
+def t_normalize(interp, t, p=2.0, dim=1, eps=1e-12):
+    return mk("normalize", [t, as_real(p), dim, as_real(eps)], t.shape_l, t.dtype)
+
+
+@prim("torch.clamp")
+def t_clamp(interp, t, min=None, max=None):
+    if t.rank == 0:
+        x = item_of(t)
+        if min is not None:
+            x = z3.If(x < as_real(min), as_real(min), x)
+        if max is not None:
+            x = z3.If(x > as_real(max), as_real(max), x)
+        return scalar_aten(x, t.dtype, t.kind)
+    return mk("clamp", [t, min, max], t.shape_l, t.dtype)
+
+
+@prim("torch.abs")
+def t_abs(interp, t):
+    return interp.call(aten_getattr(interp, t, "abs"), [])
+
+
+@prim("torch.sqrt")
+def t_sqrt(interp, t):
+    return interp.call(aten_getattr(interp, t, "sqrt"), [])
 
 
 @prim("torch.randn")
